@@ -79,5 +79,14 @@ def Report.failing (r : Report) : List String :=
   (if r.auxDisjoint then [] else ["aux-name-collision"]) ++
   (if r.finite then [] else ["non-finite-output"])
 
+/-- every variable the source model mentions (objective, both sides of every constraint; the right-hand side of a
+logic assertion is a placeholder and is not read). -/
+def occurring (m : Model α) : List String :=
+  expVars m.objective ++ m.constraints.flatMap fun c => expVars c.lhs ++ (if c.isAssert then [] else expVars c.rhs)
+
+/-- … has a column in the compiled model (independent of the usage counters of the source domain). -/
+def occurringPresent (m : Model α) (lm : LinModel α) : Bool :=
+  (occurring m).all fun v => lm.vars.contains v && lm.domain.any (·.name == v)
+
 end WF
 end Rooc
